@@ -102,6 +102,25 @@ def c18(tier, rep):
             rep.violation({"kind": "reference-listing"}, {"engine": "corpus", "what": "token listing differs from the reference .tokens file", "file": f,
                                                           "first_diff": next(((a, b) for a, b in zip(got.split("\n"), want.split("\n")) if a != b), None)})
     E.traces(rep, E.record_all(std_sources(tier, 300, 3000), modes=("collect", "stop"), listing=True), "corpus+gen+noisy")
+    # ... and through ONE parser / formatter pair re-used for all files, rejected ones in between (scripts/generate_tokens.py does this)
+    from gherkin.parser import Parser
+    from gherkin.token_formatter_builder import TokenFormatterBuilder
+    from gherkin.token_scanner import TokenScanner
+    from gherkin.errors import ParserError
+    shared = Parser(TokenFormatterBuilder())
+    files = sorted(glob.glob(os.path.join(REPO, "testdata", "*", "*.feature")))
+    order = [f for pair in zip(files[::2], files[1::2][::-1]) for f in pair]
+    for f in order:
+        src = open(f, encoding="utf8", newline="").read()
+        try:
+            got = shared.parse(TokenScanner(src)) + "\n"
+        except ParserError:
+            continue
+        ref = f + ".tokens"
+        rep.case(("tokens-file-shared-parser", os.path.basename(f)))
+        if os.path.exists(ref) and got != open(ref, encoding="utf8", newline="").read():
+            rep.violation({"kind": "reference-listing-reused-parser"}, {"engine": "corpus", "what": "token listing from a re-used parser/formatter differs from the reference .tokens file",
+                                                                         "file": f, "lines_got": got.count("\n"), "lines_want": open(ref, encoding="utf8").read().count("\n")})
 
 
 from props_total import c01, c14  # noqa: E402
@@ -345,6 +364,49 @@ def c11(tier, rep):
     E.grow(rep, M.STRUCT, [([], 6 if q else 8), (PFX_TAGGED, 2 if q else 3), (PFX_OUTLINE, 2 if q else 4)], invariants=["Inv_C11"], label="struct")
     _stream_part(tier, rep, lambda what: what in ("Inv_C11_Unique", "Inv_C11_Dense", "unique", "envelopes") or "Monotone" in what)
     E.traces(rep, E.record_all(std_sources(tier, 300, 3000)), "corpus+gen+noisy")
+    _default_parser_ids(rep)
+
+def _all_ids(doc, pickles):
+    out = []
+
+    def walk(v):
+        if isinstance(v, dict):
+            if "id" in v:
+                out.append(v["id"])
+            for x in v.values():
+                walk(x)
+        elif isinstance(v, list):
+            for x in v:
+                walk(x)
+    walk(doc)
+    walk([{k: v for k, v in p.items() if k != "tags"} for p in pickles])
+    return out
+
+
+def _default_parser_ids(rep):
+    """one id generator = one id space: a default-constructed Parser (and a Compiler sharing its generator) used for several documents"""
+    import project as P
+    from gherkin.parser import Parser
+    from gherkin.pickles.compiler import Compiler
+    parser = Parser()
+    comp = Compiler(parser.ast_builder.id_generator)
+    seen = []
+    for text in ("@a\nFeature: a\n  Scenario: s\n    Given x\n", "junk\n", "@a\nFeature: a\n  Scenario: s\n    Given x\n",
+                 "Feature: b\n  Scenario Outline: o\n    Given <h>\n    Examples:\n      | h |\n      | 1 |\n"):
+        try:
+            d = parser.parse(text)
+        except Exception:  # noqa: BLE001
+            continue
+        d["uri"] = "u"
+        pk = comp.compile(d)
+        ids = [str(i) for i in _all_ids(P.document(d), [P.pickle(x) for x in pk])]
+        rep.case(("default-parser-ids", text, len(seen)))
+        dup = [i for i in ids if i in seen]
+        if dup or len(set(ids)) != len(ids):
+            rep.violation({"kind": "ids-reused"}, {"engine": "default-parser", "what": "ids handed out by one generator repeat across documents of one Parser/Compiler",
+                                                   "source": text, "repeated": dup[:5]})
+        seen += ids
+
 
 
 def c09(tier, rep):
@@ -455,7 +517,7 @@ def c15(tier, rep):
             rep.violation({"kind": "spec-invariant", "invariant": inv}, {"engine": "Sessions", "what": f"{inv} violated", "tlc_tail": res.out[-3000:]})
         for s in uniq:
             rep.case(("schedule", json.dumps(s["hist"]), tuple(x[1] for x in s["sched"])))
-            for b in S.replay_schedule(sub, s):
+            for b in S.replay_schedule(sub, s) + (S.replay_schedule(sub, s, own_matcher=False) if len(seen) % 5 == 0 else []):
                 if str(b.get("what", "")).startswith("machinery"):
                     from common import MachineryError
                     raise MachineryError(b["what"])
